@@ -153,19 +153,37 @@ func runC01(c *Ctx) {
 		}
 		var apCall *ssa.Call
 		if typ != "deactivate" {
-			aps := callsNamed(f, "ApplyPatches")
+			aps := c.treeCalls(f, nil, 0, func(cl *ssa.Call, env Env) bool { return callNamed(cl, "ApplyPatches") })
 			if len(aps) != 1 {
 				c.Check("C01.P1", typ+":ApplyPatches-call", false, f.Pos(), fmt.Sprintf("expected one ApplyPatches call, found %d", len(aps)))
 				continue
 			}
-			apCall = aps[0]
-			a := declArgs(apCall)
-			base := c.Path(a[0], nil)
+			apCall = aps[0].top
+			a := declArgs(aps[0].call)
+			base := c.Path(a[0], aps[0].env)
+			if aps[0].fn != f {
+				// the call sits in a helper: the helper hands the composer's verdict back unchanged (document and error)
+				through := apCall.Call.StaticCallee() == aps[0].fn
+				for _, r := range returnsOf(aps[0].fn) {
+					if len(r.Results) != 2 {
+						through = false
+						continue
+					}
+					if maySucceed(r) {
+						if returnedValue(r, 0) != extractOf(aps[0].call, 0) {
+							through = false
+						}
+					} else if p0 := c.Path(returnedValue(r, 0), nil); p0 != "nil" && returnedValue(r, 0) != extractOf(aps[0].call, 0) {
+						through = false
+					}
+				}
+				c.Check("C01.P1", typ+":ApplyPatches-through-helper", through, aps[0].fn.Pos(), short(aps[0].fn.String())+" returns the composer's document on success and no document on failure")
+			}
 			if typ == "update" {
 				c.Check("C01.P1", typ+":ApplyPatches-base", base == "$2.Doc", apCall.Pos(), "patches are applied to the previous document: "+base)
 			} else {
 				mm, isMM := a[0].(*ssa.MakeMap)
-				fresh := isMM
+				fresh := isMM || (aps[0].fn != f && strings.HasPrefix(base, "makemap<"))
 				if isMM {
 					for _, r := range *mm.Referrers() {
 						if _, w := r.(*ssa.MapUpdate); w {
